@@ -71,6 +71,7 @@ package bridgesync
 // ---- block processing (C07: all-or-nothing; C14: fail-stop) and reorg (C04, C14)
 
 //@ func (p *processor) ProcessBlock (p, ctx, block)
+//@   threads tx
 //@   props C01 C04 C07 C14
 //@   requires p != nil && p.db != nil && p.log != nil && p.exitTree != nil && p.exitTree.Tree != nil && len(p.exitTree.zeroHashes) == 33
 //@   requires lastTx < heapTop
@@ -105,6 +106,7 @@ package bridgesync
 //@   loop 0 invariant tx != nil && lastTx == tx && tx != old(lastTx) && txState(tx) == 0
 
 //@ func (p *processor) Reorg (p, ctx, firstReorgedBlock)
+//@   threads tx
 //@   props C04 C14
 //@   sqltext "DELETE FROM block WHERE num >= $1;"
 //@   requires p != nil && p.db != nil && p.log != nil && p.exitTree != nil && p.exitTree.Tree != nil
@@ -194,12 +196,14 @@ package bridgesync
 //@   ensures result1 != nil ==> result0 == nil
 //@   ensures result1 == nil ==> result0 != nil
 //@ func (p *processor) isBlockProcessed (p, tx, blockNum)
+//@   threads tx
 //@   props C02 C03 C05
 //@   requires tx != nil
 //@   modifies bsLastBlockScanFaults
 //@   ensures[nil-only-when-the-block-is-processed] result == nil ==> blockNum <= ite(bsLastBlockRow == -1, 0, bsLastBlockRow)
 //@   assert call:getLastProcessedBlockWithTx arg1 == tx
 //@ func (p *processor) queryBlockRange (p, tx, fromBlock, toBlock, table)
+//@   threads tx
 //@   props C02 C03 C05
 //@   requires p != nil && tx != nil
 //@   modifies bsLastBlockScanFaults, bsRangeNotFound
@@ -226,6 +230,7 @@ package bridgesync
 //@   ensures result == nil ==> bsLastBlockRow >= 0 && *cast(dest[0], *uint64) == bsLastBlockRow
 //@   ensures (result != nil && isErr(result, sql.ErrNoRows)) ==> bsLastBlockRow == -1
 //@ func (p *processor) getLastProcessedBlockWithTx (p, tx)
+//@   threads tx
 //@   props C02 C03 C05
 //@   requires tx != nil
 //@   modifies bsLastBlockScanFaults
@@ -281,6 +286,7 @@ package bridgesync
 //@   ensures typeIs(result, []Bridge) ==> (bsConvRef == ref(unbox(result, []Bridge)) && bsConvLen == len(unbox(result, []Bridge)))
 //@   ensures typeIs(result, []Claim) ==> (bsConvRef == ref(unbox(result, []Claim)) && bsConvLen == len(unbox(result, []Claim)))
 //@ func (p *processor) GetBridges (p, ctx, fromBlock, toBlock)
+//@   threads tx
 //@   props C02 C03
 //@   consttext "bridge"
 //@   requires p != nil && p.log != nil
@@ -291,6 +297,7 @@ package bridgesync
 //@   ensures[success-is-the-rows-read-or-an-explicit-none] result1 == nil ==> ((bsRangeNotFound && len(result0) == 0) || (!bsRangeNotFound && bsRowsScans == old(bsRowsScans) + 1 && bsRowsScanFaults == old(bsRowsScanFaults) && ref(result0) == bsConvRef && len(result0) == bsConvLen))
 //@   assert call:queryBlockRange arg0 == p && arg1 == tx && arg2 == fromBlock && arg3 == toBlock && arg4 == "bridge"
 //@ func (p *processor) GetClaims (p, ctx, fromBlock, toBlock)
+//@   threads tx
 //@   props C02 C03
 //@   consttext "claim"
 //@   requires p != nil && p.log != nil
